@@ -49,6 +49,34 @@ type lvLog struct {
 	dels []lvDelivery
 	pub  uint64             // goroutine of the publication in progress
 	ids  map[*lvHandler]int // written before the first subscription
+
+	// re-entrancy: what a handler does when it handles an event on the core level, i.e. inside
+	// Publish on the publishing goroutine (written before the first subscription); the
+	// publication in progress picks the script
+	hs      []*lvHandler
+	scripts map[*lvHandler][][]lvAct
+	pick    int
+	done    []lvAct // the actions executed during the publication in progress, in order
+}
+
+// lvAct is a (un)subscription of (level, handler) issued from inside a core level handler.
+type lvAct struct {
+	sub    bool
+	h      int
+	level  api.EventHandlerLevel
+	viaAPI bool // application level only: through Events.Subscribe / Unsubscribe instead of the hook
+	by     int  // executed by this handler
+}
+
+func (a lvAct) String() string {
+	k, l := "unsub", "core"
+	if a.sub {
+		k = "sub"
+	}
+	if a.level == api.EventHandlerLevelApplication {
+		l = "application"
+	}
+	return fmt.Sprintf("%s(%s, h%d)", k, l, a.h)
 }
 
 func (h *lvHandler) HandleEvent(p api.EventPayload) {
@@ -59,8 +87,32 @@ func (h *lvHandler) HandleEvent(p api.EventPayload) {
 	if !ok {
 		id = -1 // an object the case never created; shows up as a delivery without subscription
 	}
-	h.log.dels = append(h.log.dels, lvDelivery{h: id, key: p.Ski, sync: g == h.log.pub, at: at})
+	onCore := g == h.log.pub
+	h.log.dels = append(h.log.dels, lvDelivery{h: id, key: p.Ski, sync: onCore, at: at})
+	var script []lvAct
+	if sc := h.log.scripts[h]; onCore && len(sc) > 0 {
+		script = sc[h.log.pick%len(sc)]
+	}
 	h.log.mu.Unlock()
+	// handlers may subscribe and unsubscribe while handling an event; from a core level handler
+	// that happens while the publication is being dispatched
+	for _, a := range script {
+		target := h.log.hs[a.h]
+		switch {
+		case a.sub && a.viaAPI:
+			_ = spine.Events.Subscribe(target)
+		case a.sub:
+			_ = spine.VerifSubscribe(a.level, target)
+		case a.viaAPI:
+			_ = spine.Events.Unsubscribe(target)
+		default:
+			_ = spine.VerifUnsubscribe(a.level, target)
+		}
+		a.by = id
+		h.log.mu.Lock()
+		h.log.done = append(h.log.done, a)
+		h.log.mu.Unlock()
+	}
 }
 
 func TestHandlerLevels(t *testing.T) {
@@ -68,14 +120,30 @@ func TestHandlerLevels(t *testing.T) {
 	lname := map[api.EventHandlerLevel]string{api.EventHandlerLevelCore: "core", api.EventHandlerLevelApplication: "application"}
 	rapid.Check(t, world.Prop(func(t *rapid.T) {
 		world.ResetEvents()
-		log := &lvLog{ids: map[*lvHandler]int{}}
-		nH := rapid.IntRange(1, 3).Draw(t, "handlers")
+		log := &lvLog{ids: map[*lvHandler]int{}, scripts: map[*lvHandler][][]lvAct{}}
+		nH := rapid.IntRange(1, 4).Draw(t, "handlers")
 		hs := make([]*lvHandler, nH)
 		cfgs := make([]int, nH)
 		for i := range hs {
 			cfgs[i] = rapid.SampledFrom([]int{0, 0, 1}).Draw(t, fmt.Sprintf("h%dcfg", i))
 			hs[i] = &lvHandler{cfg: cfgs[i], log: log}
 			log.ids[hs[i]] = i
+		}
+		log.hs = hs
+		var shown []string
+		for i := range hs {
+			for s, n := 0, rapid.SampledFrom([]int{0, 0, 1, 2}).Draw(t, fmt.Sprintf("h%dscripts", i)); s < n; s++ {
+				var sc []lvAct
+				for a, m := 0, rapid.IntRange(0, 2).Draw(t, fmt.Sprintf("h%ds%dlen", i, s)); a < m; a++ {
+					lb := fmt.Sprintf("h%ds%da%d", i, s, a)
+					act := lvAct{sub: rapid.SampledFrom([]bool{true, true, false}).Draw(t, lb+"sub"), h: rapid.IntRange(0, nH-1).Draw(t, lb+"h"),
+						level: rapid.SampledFrom(levels).Draw(t, lb+"level")}
+					act.viaAPI = act.level == api.EventHandlerLevelApplication && rapid.Bool().Draw(t, lb+"api")
+					sc = append(sc, act)
+				}
+				log.scripts[hs[i]] = append(log.scripts[hs[i]], sc)
+				shown = append(shown, fmt.Sprintf("h%d/script%d on the core level: %v", i, s, sc))
+			}
 		}
 		type sub struct {
 			h int
@@ -89,7 +157,8 @@ func TestHandlerLevels(t *testing.T) {
 		}()
 		base := runtime.NumGoroutine()
 		hist := []string{fmt.Sprintf("content of the handler objects h0..: %v", cfgs)}
-		both, pubs, afterUnsub := false, 0, false
+		hist = append(hist, shown...)
+		both, pubs, afterUnsub, reentered, reCoreSub := false, 0, false, false, false
 		steps := rapid.IntRange(3, 14).Draw(t, "steps")
 		for i := 0; i < steps; i++ {
 			kind := rapid.SampledFrom([]string{"sub", "sub", "unsub", "publish", "publish"}).Draw(t, fmt.Sprintf("s%d", i))
@@ -136,6 +205,8 @@ func TestHandlerLevels(t *testing.T) {
 				ok := watched(func() {
 					log.mu.Lock()
 					log.pub = gid()
+					log.pick = pubs
+					log.done = nil
 					log.mu.Unlock()
 					spine.Events.Publish(api.EventPayload{Ski: key, EventType: api.EventTypeDeviceChange, ChangeType: api.ElementChangeUpdate})
 					end = world.Stamp()
@@ -148,7 +219,15 @@ func TestHandlerLevels(t *testing.T) {
 				}
 				log.mu.Lock()
 				dels := append([]lvDelivery(nil), log.dels...)
+				done := append([]lvAct(nil), log.done...)
 				log.mu.Unlock()
+				// (un)subscriptions issued from inside core level handlers, i.e. while this publication
+				// was being dispatched: whether such a pair is "subscribed at publication time" is not
+				// fixed - zero or one delivery, never two; every other pair is as it was at the start
+				touched := map[string]bool{}
+				for _, a := range done {
+					touched[fmt.Sprintf("h%d on the %s level", a.h, lname[a.level])] = true
+				}
 				got := map[string]int{}
 				var lastCore, firstApp uint64
 				for _, d := range dels {
@@ -171,6 +250,32 @@ func TestHandlerLevels(t *testing.T) {
 				for s := range subscribed {
 					want[fmt.Sprintf("h%d on the %s level", s.h, lname[s.l])]++
 				}
+				for k := range touched {
+					if got[k] > 1 {
+						world.Fail(t, "C15/levels/delivered-twice", "publication %s reached %s %d times (it was (un)subscribed from inside a core level handler during the publication: %v)\nhistory: %v", key, k, got[k], done, hist)
+					}
+					delete(got, k)
+					delete(want, k)
+				}
+				// the state after the publication: the actions ran one after the other on the publishing goroutine
+				for _, a := range done {
+					s := sub{a.h, a.level}
+					reentered = true
+					if a.sub {
+						if !subscribed[s] && a.level == api.EventHandlerLevelCore {
+							reCoreSub = true
+						}
+						subscribed[s] = true
+					} else {
+						if subscribed[s] {
+							afterUnsub = true
+						}
+						delete(subscribed, s)
+					}
+				}
+				if len(done) > 0 {
+					hist = append(hist, fmt.Sprintf("  during %s: %v", key, done))
+				}
 				if fmt.Sprint(sortedCounts(got)) != fmt.Sprint(sortedCounts(want)) {
 					sig := "C15/levels/deliveries-differ-from-subscriptions"
 					for k, n := range got {
@@ -191,6 +296,12 @@ func TestHandlerLevels(t *testing.T) {
 		}
 		if afterUnsub {
 			labels = append(labels, "levels/publication-after-an-unsubscription")
+		}
+		if reentered {
+			labels = append(labels, "levels/reentrant-from-core-handler")
+		}
+		if reCoreSub {
+			labels = append(labels, "levels/new-core-subscription-during-dispatch")
 		}
 		if alike(cfgs) {
 			labels = append(labels, "levels/handlers-alike")
